@@ -1,0 +1,9 @@
+//go:build verif
+
+// Contracts for the exovc verifier (/verif). Comment-only: with the tag off this file is not part
+// of the package, with the tag on it declares nothing.
+package keeper
+
+// read-only accessor used by the operator module (frame: nothing is written)
+//@ func (*Keeper).GetAVSSlashContract
+//@   ensures[C04.gasc.readonly] true
